@@ -103,10 +103,19 @@ pub fn hdr(st: &State, rest: &str) -> String {
 		let hi = h.image();
 		let cr = h.code_range();
 		let ir = h.image_range();
-		format!("ok dos={} dosimg={} nt={} fh={} opt={} dd={} sec={} himg={} csum={} code={}..{} image={}..{} base={}",
+		// the same object as a `&dyn PeObject` trait object (the forwarding impl of pe.rs): image, alignment kind,
+		// base and one address conversion have to be those of the object itself; a difference is appended to the answer
+		fn via<'a, P: Pe<'a>>(p: P) -> (u64, usize, usize, bool, Option<u64>, Option<u32>) {
+			let b = p.image_base();
+			(b as u64, p.image().as_ptr() as usize, p.image().len(), match p.align() { pelite::Align::File => true, pelite::Align::Section => false },
+				p.rva_to_va(0x10).ok().map(|v| v as u64), p.va_to_rva(b.wrapping_add(0x10)).ok())
+		}
+		let o: &dyn PeObject = &p;
+		let dynflag = if via(o) == via(p) { "" } else { " DYN-OBJECT-DIFFERS" };
+		format!("ok dos={} dosimg={} nt={} fh={} opt={} dd={} sec={} himg={} csum={} code={}..{} image={}..{} base={}{}",
 			tref(g, dos, 64), g.rf(di.as_ptr(), di.len()), tref(g, nt, std::mem::size_of_val(nt)), tref(g, fh, 20), tref(g, oh, std::mem::size_of_val(oh)),
 			tref(g, dd.as_ptr(), dd.len() * 8), tref(g, sh.as_ptr(), sh.len() * 40), g.rf(hi.as_ptr(), hi.len()),
-			h.check_sum(), cr.start, cr.end, ir.start, ir.end, p.image_base() as u64)
+			h.check_sum(), cr.start, cr.end, ir.start, ir.end, p.image_base() as u64, dynflag)
 	})
 }
 
@@ -190,7 +199,8 @@ pub fn secname(st: &State, rest: &str) -> String {
 		match p.section_headers().iter().nth(i) {
 			Some(s) => {
 				let nm = match s.name() { Ok(x) => format!("str {}", hex(x.as_bytes())), Err(b) => format!("raw {}", hex(b)) };
-				format!("ok {} bytes={}", nm, hex(s.name_bytes()))
+				let (vr, fr) = (s.virtual_range(), s.file_range());
+				format!("ok {} bytes={} vr={}..{} fr={}..{}", nm, hex(s.name_bytes()), vr.start, vr.end, fr.start, fr.end)
 			},
 			None => "nosec".to_string(),
 		}
